@@ -119,7 +119,7 @@ class StatsMiddleware(Middleware):
         except Exception as e:
             # see Werkzeug #388
             resp_status = repr(getattr(e, 'code', e.__class__.__name__))
-            resp_mime_type = getattr(e, 'content_type', '').partition(';')[0]
+            resp_mime_type = (getattr(e, 'content_type', '') or '').partition(';')[0]
             raise
         finally:
             end_time = time.time()
